@@ -49,15 +49,24 @@
         goes part of the way), and the complete one - every page of the log
         within the database size, the cut of the file, the restart of the log
         at which LiteFS forgets its WAL bookkeeping (C04_wal_full_history).
-   NOT proved (C04_history_partial): the way back out of WAL mode, and a node
-   that changes role or restarts between the histories above (Open re-establishes
-   the per-page agreement, but the journal mode afterwards depends on the
-   newest file's page 1, which the invariants above do not track); it is re-checked on
+    11. (round 8) all of it put together, with the way back out of WAL mode and
+        restarts anywhere: ONE invariant (GInv: J and an empty log in
+        rollback-journal mode, WL and WK in WAL mode) kept by every step -
+        a rollback-journal transaction, the truncate, the switch, a WAL commit,
+        every kind of checkpoint, the removal of the log with page 1 rewritten
+        under a rollback journal, Open - hence for EVERY history made of these
+        steps from an empty node the position's checksum is the from-scratch
+        checksum of the logical database (C04_history).
+   NOT proved (C04_history_partial): a node that changes role inside such a
+   history (primary <-> replica: C04_replica_history starts from an empty node),
+   a partial SQLite checkpoint that copies an older version than the log's last
+   one (readers holding it back), and transactions LiteFS fails inside
+   (I/O errors); these are re-checked on
    every run by the correspondence (the model re-executes every generated
    history and must reproduce every reported position) and by the harness'
    raw-file recomputation. *)
 From Coq Require Import NArith List Bool.
-Require Import LF.Gen.ConstsGen LF.Model.PageDB LF.Proofs.XorLib LF.Proofs.ChecksumProofs LF.Proofs.CaptureProofs LF.Proofs.HistoryProofs LF.Proofs.WalHistoryProofs LF.Proofs.WalCheckpointProofs LF.Proofs.SqlCheckpointProofs LF.Proofs.ApplyHistoryProofs LF.Proofs.OpenProofs.
+Require Import LF.Gen.ConstsGen LF.Model.PageDB LF.Proofs.XorLib LF.Proofs.ChecksumProofs LF.Proofs.CaptureProofs LF.Proofs.HistoryProofs LF.Proofs.WalHistoryProofs LF.Proofs.WalCheckpointProofs LF.Proofs.SqlCheckpointProofs LF.Proofs.ApplyHistoryProofs LF.Proofs.OpenProofs LF.Proofs.ComposeProofs.
 Import ListNotations.
 Local Open Scope N_scope.
 
@@ -309,3 +318,52 @@ Example C04_wal_full_history_nonvacuous :
     | None => False
     end.
 Proof. exact wal_full_history_example. Qed.
+
+(* All of it.  [gs]: a list of steps, each allowed in the journal mode the node is in ([wf_gsteps]):
+     GJ h                 rollback-journal mode: a transaction that keeps the mode, or the truncate ([wf_step]);
+     GSwitch zf acts c    rollback-journal mode: the transaction that leaves the database in WAL mode;
+     GW o                 WAL mode: a commit, LiteFS's checkpoint, a page copied by SQLite, SQLite's complete checkpoint with
+                          the restart of the log ([wf_wop2]);
+     GLeave q c           WAL mode with nothing in the log: SQLite removes the log and rewrites page 1 (q, without the WAL
+                          versions) under a rollback journal while the header still says WAL, and commits;
+     GRestart             LiteFS restarts: Open, which checkpoints whatever log it finds, recomputes from the file and
+                          re-applies the newest transaction file ([wf_restart]: that file is well-formed, has the pages it
+                          adds beyond the header's size, and there is a database file or it writes page 1).
+   [v'] is the logical database [run_gsteps] computes: in WAL mode the overlay of frames on the file at the switch or at
+   the last restart; otherwise the file.  For EVERY such history from an empty node: in rollback-journal mode the
+   position's checksum (once there is one) is the from-scratch checksum of the database file and the cache is the file's;
+   in WAL mode it is the from-scratch checksum of [v'], pageChecksum answers [v'], and with nothing in the log the file
+   is [v']. *)
+Theorem C04_history : forall lock gs s' v',
+  1 <= lock -> wf_gsteps (init lock) gs -> run_gsteps (init lock) (fun _ => 0) gs = Some (s', v') ->
+  lockpg s' = lock /\
+  (wal_mode s' = false -> (txid s' <> 0 -> chk s' = scratch (fun p => if p =? lock then 0 else file_h s' p) (pageN s')) /\
+                          (forall p, 1 <= p <= pageN s' -> p <> lock -> dbc s' p = file_h s' p)) /\
+  (wal_mode s' = true -> chk s' = scratch (fun p => if p =? lock then 0 else v' p) (pageN s') /\
+                         (forall p, 1 <= p <= pageN s' -> p <> lock -> eff s' (pageN s') [] p = v' p) /\
+                         (wal_file s' = [] -> forall p, 1 <= p <= pageN s' -> p <> lock -> file_h s' p = v' p)).
+Proof. exact g_history_checksum. Qed.
+Print Assumptions C04_history.
+
+(* Non-vacuity: create the database; restart; switch to WAL mode; a WAL transaction that grows the database; restart with the
+   log in place; another transaction; SQLite's complete checkpoint with the restart of the log; back to rollback-journal
+   mode; a rollback-journal transaction *)
+Example C04_history_nonvacuous :
+  let pg h n := mkPg (fl h) n false in
+  let pw h n := mkPg (fl h) n true in
+  let gs := [GJ (HTx [] [AWrite 1 (pg 11 2); AWrite 2 (pg 12 0)] 2);
+             GRestart;
+             GSwitch [] [AWrite 1 (pw 13 2)] 2;
+             GW (W2Commit [(1, pw 14 3); (3, pw 33 0); (2, pw 23 0)] 3);
+             GRestart;
+             GW (W2Commit [(2, pw 24 0)] 3);
+             GW W2SqlRestart;
+             GLeave (pg 15 3) 3;
+             GJ (HTx [] [AWrite 3 (pg 36 0)] 3)] in
+  wf_gsteps (init 2097153) gs /\
+  match run_gsteps (init 2097153) (fun _ => 0) gs with
+  | Some (s', v') => (wal_mode s', txid s', pageN s', chk s' =? fl (N.lxor (N.lxor (fl 15) (fl 24)) (fl 36)), lenN (dbfile s'),
+                      map (file_h s') [1; 2; 3]) = (false, 6, 3, true, 3, [fl 15; fl 24; fl 36])
+  | None => False
+  end.
+Proof. exact g_history_example. Qed.
